@@ -233,6 +233,10 @@ func TestVerifC18Records(t *testing.T) {
 		rec.Eval()
 		data := w.W.Bytes()
 		rd := vReaderStream(data)
+		rd.MaxRead = rapid.SampledFrom([]int{0, 0, 1, 3, 100, 1200}).Draw(rt, "segment")
+		if rd.MaxRead > 0 {
+			rec.Class("segmented-delivery")
+		}
 		for i, want := range seq {
 			typ, msg, err := readControlMessage(rd)
 			if err != nil {
@@ -329,6 +333,7 @@ func TestVerifC18Header(t *testing.T) {
 			rec.Class("manifest-with-invalid-utf8-name")
 		}
 		rd := vReaderStream(w.W.Bytes())
+		rd.MaxRead = rapid.SampledFrom([]int{0, 0, 1, 3, 100, 1200}).Draw(rt, "segment")
 		got, err := readControlHeader(rd)
 		if err != nil {
 			sig := "header-decode-error"
